@@ -4,7 +4,7 @@
   doubles, NaN included: the hypotheses are exactly the outcomes of the model's own comparisons,
   `¬ z < c` is NOT replaced by `c ≤ z`).
 
-  What is pinned (tables: `Statrs/Draft/Spec/FunctionBranches.lean`):
+  What is pinned (tables: `Statrs/Spec/FunctionBranches.lean`):
   1. the LENGTH of each of the 42 coefficient tables;
   2. the data tables `erfcPieces`, `erfInvPieces` themselves (number of rows, contiguity: the
      shift of piece k+1 is the cut point of piece k);
@@ -21,7 +21,7 @@
 import Mathlib.Tactic
 import Statrs.Real.Simp
 import Statrs.Inst.Float
-import Statrs.Draft.Spec.FunctionBranches
+import Statrs.Spec.FunctionBranches
 namespace Statrs.Props.C11.BranchPins
 open Statrs Statrs.Gen Statrs.Spec.FunctionBranches
 set_option linter.unusedSectionVars false
